@@ -422,8 +422,10 @@ pub struct Structure {
 pub fn structure_of<O: Op>(op: &O, x: &[BigUint]) -> Result<Structure, String> {
     use std::hash::{Hash, Hasher};
     let inst = op.reference(x).ok_or_else(|| "input outside the domain".to_string())?;
-    let k = op_k(op, x)?;
     let rel = OpRel { op: op.clone() };
+    // k from the cost model of THIS witness (not the per-op cache): row usage must
+    // not depend on the witness either
+    let k = vpcore::catch(|| MidnightCircuit::new(&rel, Value::known(vec![]), Value::known(x.to_vec()), Some(op.max_bit_len())).min_k())?;
     let prover = vpcore::catch(|| {
         let c = MidnightCircuit::new(&rel, Value::known(inst.clone()), Value::known(x.to_vec()), Some(op.max_bit_len()));
         MockProver::run(k, &c, vec![vec![], inst.clone()])
